@@ -2,6 +2,7 @@
 //! the op lines (replayed by the Lean driver) together with the implementation's answers.
 mod c_alu;
 mod c_bus;
+mod c_mach;
 mod gen;
 mod out;
 mod rng;
@@ -24,6 +25,8 @@ fn main() {
     match cmd {
         "c08" => c_alu::run(&mut out, seed, thorough),
         "c10" => c_bus::run(&mut out, seed, thorough),
+        "c05" => c_mach::run_c05(&mut out, seed, thorough),
+        "c13" => c_mach::run_c13(&mut out, seed, thorough),
         "replay" => gen::replay(&mut out, &extra),
         _ => {
             eprintln!("unknown command {}", cmd);
